@@ -239,6 +239,9 @@ func main() {
 				n, _ := strconv.ParseInt(v, 10, 64)
 				cfg.Lim.MaxSteps = n
 			}
+			if e.Opts["nonterm"] == "violation" {
+				cfg.NontermIsViolation = true
+			}
 			if v := e.Opts["timeout_ms"]; v != "" {
 				cfg.TimeoutMs, _ = strconv.Atoi(v)
 			}
@@ -562,7 +565,7 @@ func mkCase(prop, tier string, e *sym.EntrySpec, p *sym.Program, v *sym.Violatio
 	for _, in := range v.Inputs {
 		rc.Fixed[in.Name] = in.Val
 	}
-	rc.Native = nativeReplayable(e.File)
+	rc.Native = nativeReplayable(e.File) && v.Kind != "nontermination"
 	return rc
 }
 
@@ -593,7 +596,12 @@ func interpReplay(l *sym.Loaded, e *sym.EntrySpec, p *sym.Program, rc replayCase
 	}
 	fn := l.Pkgs[e.File.PkgPath].Func(e.Func)
 	cfg := sym.RunConfig{P: p, Entry: fn, Name: e.Func, Workers: 1, MaxPaths: 10,
-		Lim: sym.Limits{MaxDecisions: tc.MaxDec, MaxSteps: tc.MaxSteps, EnumCap: tc.EnumCap}, Fixed: rc.Fixed}
+		Lim: sym.Limits{MaxDecisions: tc.MaxDec, MaxSteps: tc.MaxSteps, EnumCap: tc.EnumCap}, Fixed: rc.Fixed,
+		NontermIsViolation: e.Opts["nonterm"] == "violation"}
+	if v := e.Opts["steps"]; v != "" {
+		n, _ := strconv.ParseInt(v, 10, 64)
+		cfg.Lim.MaxSteps = n
+	}
 	r := sym.Explore(cfg)
 	for _, v := range r.Stats.Violations {
 		if v.Label == rc.Label {
